@@ -306,3 +306,66 @@ Print Assumptions C03_tie_cut_close_can_be_repeated.
 Print Assumptions C03_tie_timeout_only_around_close_in_aexit.
 Print Assumptions C03_tie_aexit_timeout_while_waiting_for_the_run.
 Print Assumptions C03_tie_call_refinement.
+
+(** ---- tie of the callback wiring of the close paths (session 5): Gen/MachineWiring.v (translate/machine_wiring.py),
+    Life/MachineTie.v.  The `close` trigger of the model = the program derived from the regenerated CONFIG,
+    StateMachine and Callback, for ALL model states. *)
+From NL Require Gen.FsmConfig Life.MachineSyntax Gen.MachineWiring Life.MachineTie.
+
+(** every source state but Created; from Running the model fires the trigger only once `_run_finished` is set
+    (Imp.aclose has waited, next theorem but one), so the wait of on_close_while_running passes at once;
+    in Closed: the internal transition -- no callback, no state change, after_state_change returns early *)
+Theorem C03_tie_machine_close_trigger : forall s t, st_fsm s <> Created ->
+  (st_fsm s = Running -> run_finished s = Some true) ->
+  close_trigger s t = MachineTie.api_trigger t CClose FsmConfig.TClose s.
+Proof. exact MachineTie.tie_close_trigger. Qed.
+
+(** from Created (unreachable: Imp.aclose runs after aopen) the model has no suspension at the `start` hook *)
+Theorem C03_tie_machine_close_trigger_created : forall s t, st_fsm s = Created ->
+  exists k, MachineTie.api_prog t CClose FsmConfig.TClose Created = Some k /\
+            close_trigger s t = MachineTie.api_embed t CClose FsmConfig.TClose (MachineTie.run (MachineTie.ungate S_G1 k) s).
+Proof. exact MachineTie.tie_close_trigger_created. Qed.
+
+(** close while running: Imp.aclose awaits the regenerated Callback.wait_for_run_finish BEFORE the trigger:
+    AttributeError if no run was ever started, at once if set, otherwise parked at C_WaitRunFinished until set *)
+Theorem C03_tie_machine_close_while_running : forall s t,
+  exists a r, MachineTie.wait_for_run_finish_prims = Some [MachineTie.PWait a r C_WaitRunFinished] /\
+  (find_task (tasks s) t = Some (CClose, C_WaitRunFinished) ->
+     do_step s t = if r s then close_trigger s t else s) /\
+  (st_fsm s = Running ->
+     enter_close s t = let s1 := publish s PEndAll in
+                       match a s1 with
+                       | MachineTie.WPass => close_trigger s1 t
+                       | MachineTie.WPark => set_pc s1 t CClose C_WaitRunFinished
+                       | MachineTie.WRaise x => MachineTie.raise_out s1 t CClose x
+                       end).
+Proof. exact MachineTie.tie_close_wait_run_finished. Qed.
+
+(** close from Finished: on_exit_finished awaits the run task AFTER the before-callbacks and BEFORE the state change *)
+Theorem C03_tie_machine_close_wait_run_task : forall s t, find_task (tasks s) t = Some (CClose, C_WaitRunTask) ->
+  do_step s t = MachineTie.api_resume t CClose FsmConfig.TClose C_WaitRunTask
+                  (MachineTie.api_cont t CClose FsmConfig.TClose Finished C_WaitRunTask) s.
+Proof. exact MachineTie.tie_step_close_wait_task. Qed.
+
+(** after the close hook: on_change_state (state already Closed), then the rest of Imp.aclose *)
+Theorem C03_tie_machine_close_after : forall s t p src, find_task (tasks s) t = Some (CClose, p) ->
+  src <> Closed -> In p [C_G3; C_G4] ->
+  do_step s t = MachineTie.api_resume t CClose FsmConfig.TClose p (MachineTie.api_cont t CClose FsmConfig.TClose src p) s.
+Proof. exact MachineTie.tie_step_close_after. Qed.
+
+(** what a plugin sees of one close(): Closed -> nothing at all *)
+Theorem C03_tie_machine_close_hook_order : forall s t,
+  MachineTie.api_hook_order t CClose FsmConfig.TClose s =
+  match st_fsm s with
+  | Created => Some [(HStart, Created); (HChangeScript, Created); (HClose, Closed); (HChangeState, Closed)]
+  | Closed => Some []
+  | _ => Some [(HClose, Closed); (HChangeState, Closed)]
+  end.
+Proof. exact MachineTie.hook_order_close. Qed.
+
+Print Assumptions C03_tie_machine_close_trigger.
+Print Assumptions C03_tie_machine_close_trigger_created.
+Print Assumptions C03_tie_machine_close_while_running.
+Print Assumptions C03_tie_machine_close_wait_run_task.
+Print Assumptions C03_tie_machine_close_after.
+Print Assumptions C03_tie_machine_close_hook_order.
